@@ -1219,3 +1219,361 @@ Proof.
   - destruct s, d; try discriminate; reflexivity.
   - destruct s, d; reflexivity.
 Qed.
+
+(* ------------------------------------------------------------------------------------- *)
+(* single-bit corruption                                                                  *)
+(* ------------------------------------------------------------------------------------- *)
+
+Definition flip_bit (b k : Z) : Z := Z.lxor b (2 ^ k).
+Definition flip_at (l : list Z) (i : nat) (k : Z) : list Z := cksum_upd l i (flip_bit (nth i l 0) k).
+
+(* finite table (256 byte values x 8 bit positions): flipping bit k of a byte adds or subtracts
+   2^k according to the old value of the bit, stays a byte, and bits 4..7 do not touch the low nibble *)
+Definition flip_row_ok (b k : Z) : bool :=
+  let f := flip_bit b k in
+  (0 <=? f) && (f <? 256) &&
+  (f =? (if Z.testbit b k then b - 2 ^ k else b + 2 ^ k)) &&
+  ((k <? 4) || (Z.land f 15 =? Z.land b 15)).
+
+Lemma flip_table :
+  forallb (fun b => forallb (fun k => flip_row_ok (Z.of_nat b) (Z.of_nat k)) (seq 0 8)) (seq 0 256) = true.
+Proof. vm_compute. reflexivity. Qed.
+
+Lemma flip_row : forall b k, 0 <= b < 256 -> 0 <= k < 8 -> flip_row_ok b k = true.
+Proof.
+  intros b k Hb Hk. pose proof flip_table as T. rewrite forallb_forall in T.
+  specialize (T (Z.to_nat b)). rewrite in_seq in T. specialize (T ltac:(lia)).
+  rewrite forallb_forall in T. specialize (T (Z.to_nat k)). rewrite in_seq in T.
+  specialize (T ltac:(lia)). rewrite !Z2Nat.id in T by lia. exact T.
+Qed.
+
+Lemma pow2_small : forall k, 0 <= k < 8 -> 1 <= 2 ^ k <= 128.
+Proof.
+  intros k Hk. assert (C : k = 0 \/ k = 1 \/ k = 2 \/ k = 3 \/ k = 4 \/ k = 5 \/ k = 6 \/ k = 7) by lia.
+  destruct C as [->|[->|[->|[->|[->|[->|[->| ->]]]]]]]; vm_compute; split; discriminate.
+Qed.
+
+Lemma flip_bit_spec : forall b k, 0 <= b < 256 -> 0 <= k < 8 ->
+  0 <= flip_bit b k < 256 /\
+  flip_bit b k = (if Z.testbit b k then b - 2 ^ k else b + 2 ^ k) /\
+  (4 <= k -> Z.land (flip_bit b k) 15 = Z.land b 15).
+Proof.
+  intros b k Hb Hk. pose proof (flip_row b k Hb Hk) as R. unfold flip_row_ok in R. cbv zeta in R.
+  repeat rewrite andb_true_iff in R. destruct R as [[[R1 R2] R3] R4].
+  split; [lia|]. split; [lia|]. intros H4. rewrite orb_true_iff in R4. lia.
+Qed.
+
+Lemma flip_at_length : forall l i k, length (flip_at l i k) = length l.
+Proof. intros. apply upd_length. Qed.
+
+Lemma flip_at_bytes : forall l i k, bytes l -> 0 <= k < 8 -> bytes (flip_at l i k).
+Proof.
+  intros. unfold flip_at. apply upd_bytes; auto.
+  apply flip_bit_spec; auto. apply nth_bytes; auto.
+Qed.
+
+(* the word sum moves by exactly +-2^k (odd offset) or +-2^(k+8) (even offset) *)
+Lemma besum_flip : forall l i k, bytes l -> (i < length l)%nat -> 0 <= k < 8 ->
+  exists D, besum (flip_at l i k) = besum l + D /\ (0 < D < 65535 \/ 0 < - D < 65535).
+Proof.
+  intros l i k Bl Hi Hk. unfold flip_at. rewrite besum_upd by exact Hi.
+  pose proof (nth_bytes l i Bl) as Hb.
+  destruct (flip_bit_spec (nth i l 0) k Hb Hk) as [_ [E _]].
+  pose proof (pow2_small k Hk) as Hp.
+  eexists. split; [reflexivity|]. rewrite E. unfold weight.
+  destruct (Z.testbit (nth i l 0) k); destruct (Nat.even i); lia.
+Qed.
+
+Lemma gen_verify_true_iff : forall P region, 0 <= P -> bytes region ->
+  (gen_verify P region = true <-> 0 < P + besum region /\ (P + besum region) mod 65535 = 0).
+Proof.
+  intros P region HP Br. unfold gen_verify. rewrite Z.eqb_eq.
+  apply norm_ffff_iff. pose proof (besum_nonneg region Br). lia.
+Qed.
+
+(* a change of the total by D, 0 < |D| < 65535, is always detected *)
+Lemma gen_delta_detected : forall P region P' region' D, 0 <= P -> bytes region -> 0 <= P' -> bytes region' ->
+  P' + besum region' = P + besum region + D -> (0 < D < 65535 \/ 0 < - D < 65535) ->
+  gen_verify P region = true -> gen_verify P' region' = false.
+Proof.
+  intros P region P' region' D HP Br HP' Br' E HD V.
+  apply gen_verify_true_iff in V; auto.
+  destruct (gen_verify P' region') eqn:V'; [|reflexivity].
+  apply gen_verify_true_iff in V'; auto. rewrite E in V'. lia.
+Qed.
+
+Lemma gen_flip_detected : forall P region i k, 0 <= P -> bytes region ->
+  (i < length region)%nat -> 0 <= k < 8 ->
+  gen_verify P region = true -> gen_verify P (flip_at region i k) = false.
+Proof.
+  intros P region i k HP Br Hi Hk V.
+  destruct (besum_flip region i k Br Hi Hk) as [D [E HD]].
+  apply (gen_delta_detected P region P (flip_at region i k) D); auto using flip_at_bytes. lia.
+Qed.
+
+Lemma flip_at_firstn : forall l n i k, (i < n)%nat ->
+  firstn n (flip_at l i k) = flip_at (firstn n l) i k.
+Proof. intros. unfold flip_at. rewrite upd_firstn by lia. rewrite firstn_nth by lia. reflexivity. Qed.
+
+Lemma flip_at_nth_other : forall l i k j d, i <> j -> nth j (flip_at l i k) d = nth j l d.
+Proof. intros. unfold flip_at. apply upd_nth_other. exact H. Qed.
+
+Lemma r16_flip_other : forall l i k a, i <> a -> i <> S a -> r16 (flip_at l i k) a = r16 l a.
+Proof. intros. unfold r16. rewrite !flip_at_nth_other by lia. reflexivity. Qed.
+
+(* --- per protocol --- *)
+
+Lemma icmpv4_flip_detected : forall dbg be p i k, bytes p ->
+  Z.of_nat (length p) <= cksum_max_len -> (i < length p)%nat -> 0 <= k < 8 ->
+  cksum_icmpv4_verify dbg be p = Ok true ->
+  cksum_icmpv4_verify dbg be (flip_at p i k) = Ok false.
+Proof.
+  intros dbg be p i k Bp Hl Hi Hk V.
+  rewrite icmpv4_verify_shape in V by auto. inversion V as [V'].
+  rewrite icmpv4_verify_shape by (rewrite ?flip_at_length; auto using flip_at_bytes).
+  rewrite gen_flip_detected; auto. lia.
+Qed.
+
+Lemma icmpv6_flip_detected : forall dbg be src dst p i k, bytes p -> v6_ok src -> v6_ok dst ->
+  Z.of_nat (length p) <= cksum_max_len -> (i < length p)%nat -> 0 <= k < 8 ->
+  cksum_icmpv6_verify dbg be src dst p = Ok true ->
+  cksum_icmpv6_verify dbg be src dst (flip_at p i k) = Ok false.
+Proof.
+  intros dbg be src dst p i k Bp As Ad Hl Hi Hk V.
+  rewrite icmpv6_verify_shape in V by auto. inversion V as [V'].
+  rewrite icmpv6_verify_shape by (rewrite ?flip_at_length; auto using flip_at_bytes).
+  unfold icmpv6_P at 1. rewrite flip_at_length. fold (icmpv6_P src dst p).
+  rewrite gen_flip_detected; auto.
+  destruct As, Ad. apply ph_sum_nonneg; auto. unfold cksum_PROTO_ICMPV6; lia.
+Qed.
+
+Lemma tcp_flip_detected : forall dbg be src dst p i k, bytes p ->
+  addr_ok src -> addr_ok dst -> same_family src dst ->
+  Z.of_nat (length p) <= cksum_max_len -> (i < length p)%nat -> 0 <= k < 8 ->
+  cksum_tcp_verify dbg be src dst p = Ok true ->
+  cksum_tcp_verify dbg be src dst (flip_at p i k) = Ok false.
+Proof.
+  intros dbg be src dst p i k Bp As Ad Hf Hl Hi Hk V.
+  rewrite tcp_verify_shape in V by auto. inversion V as [V'].
+  rewrite tcp_verify_shape by (rewrite ?flip_at_length; auto using flip_at_bytes).
+  unfold tcp_P at 1. rewrite flip_at_length. fold (tcp_P src dst p).
+  rewrite gen_flip_detected; auto.
+  apply ph_nonneg; auto. unfold cksum_PROTO_TCP; lia.
+Qed.
+
+(* IPv4 header: every bit of the header except the four IHL bits (byte 0, bits 0..3), which
+   change what the header *is* (the summed region) rather than corrupt it *)
+Lemma ipv4_flip_detected : forall dbg be p i k, bytes p ->
+  ipv4_hl p <= Z.of_nat (length p) -> (Z.of_nat i < ipv4_hl p) -> 0 <= k < 8 ->
+  (i <> O \/ 4 <= k) ->
+  cksum_ipv4_verify dbg be p = Ok true ->
+  cksum_ipv4_verify dbg be (flip_at p i k) = Ok false.
+Proof.
+  intros dbg be p i k Bp Hl Hi Hk Hnib V.
+  assert (H0 : (0 < length p)%nat) by lia.
+  rewrite ipv4_verify_shape in V by auto. inversion V as [V'].
+  assert (Ehl : ipv4_hl (flip_at p i k) = ipv4_hl p).
+  { unfold ipv4_hl. destruct i as [|i].
+    - unfold flip_at. rewrite upd_nth_same by exact H0.
+      destruct (flip_bit_spec (nth 0 p 0) k (nth_bytes p 0 Bp) Hk) as [_ [_ E]].
+      rewrite E by lia. reflexivity.
+    - rewrite flip_at_nth_other by lia. reflexivity. }
+  rewrite ipv4_verify_shape by (rewrite ?flip_at_length, ?Ehl; auto using flip_at_bytes).
+  unfold ipv4_region in *. rewrite Ehl. rewrite flip_at_firstn by lia.
+  rewrite gen_flip_detected; auto using bytes_firstn; try lia.
+  rewrite firstn_length. lia.
+Qed.
+
+(* UDP: every bit of the first `len` bytes except the length field itself (which changes the
+   summed region).  The corrupted datagram is accepted only in the one case the property allows:
+   IPv4 pseudo header and the corruption turned the checksum field into 0 ("no checksum"). *)
+Lemma udp_flip_detected : forall dbg be src dst p i k, bytes p ->
+  addr_ok src -> addr_ok dst -> same_family src dst ->
+  snd wudp_f_CHECKSUM <= Z.of_nat (length p) -> udp_len p <= Z.of_nat (length p) ->
+  Z.of_nat i < udp_len p -> 0 <= k < 8 ->
+  i <> foff wudp_f_LENGTH -> i <> S (foff wudp_f_LENGTH) ->
+  udp_ck p <> 0 ->
+  cksum_udp_verify dbg be src dst p = Ok true ->
+  cksum_udp_verify dbg be src dst (flip_at p i k) =
+    Ok (cksum_is_v4 src && cksum_is_v4 dst && (udp_ck (flip_at p i k) =? 0)).
+Proof.
+  intros dbg be src dst p i k Bp As Ad Hf Hl Hlen Hi Hk Hn1 Hn2 Hck V.
+  rewrite udp_verify_shape in V by auto.
+  destruct (udp_ck p =? 0) eqn:E0; [lia|]. inversion V as [V'].
+  assert (Elen : udp_len (flip_at p i k) = udp_len p) by (apply r16_flip_other; auto).
+  rewrite udp_verify_shape by (rewrite ?flip_at_length, ?Elen; auto using flip_at_bytes).
+  destruct (udp_ck (flip_at p i k) =? 0) eqn:E1.
+  - rewrite andb_true_r. reflexivity.
+  - rewrite andb_false_r. unfold udp_P, udp_region in *. rewrite Elen.
+    rewrite flip_at_firstn by lia.
+    rewrite gen_flip_detected; auto using bytes_firstn; try lia.
+    + apply ph_nonneg; auto. unfold cksum_PROTO_UDP; lia.
+    + rewrite firstn_length. pose proof (udp_len_range p Bp). lia.
+Qed.
+
+(* over IPv6 there is no exception: the corrupted datagram is always rejected *)
+Lemma udp_flip_detected_v6 : forall dbg be src dst p i k, bytes p ->
+  addr_ok src -> addr_ok dst -> same_family src dst -> cksum_is_v4 src = false ->
+  snd wudp_f_CHECKSUM <= Z.of_nat (length p) -> udp_len p <= Z.of_nat (length p) ->
+  Z.of_nat i < udp_len p -> 0 <= k < 8 ->
+  i <> foff wudp_f_LENGTH -> i <> S (foff wudp_f_LENGTH) ->
+  cksum_udp_verify dbg be src dst p = Ok true ->
+  cksum_udp_verify dbg be src dst (flip_at p i k) = Ok false.
+Proof.
+  intros dbg be src dst p i k Bp As Ad Hf H6 Hl Hlen Hi Hk Hn1 Hn2 V.
+  assert (Hck : udp_ck p <> 0).
+  { intro E0. rewrite udp_verify_shape in V by auto. rewrite E0, H6 in V. discriminate. }
+  rewrite (udp_flip_detected dbg be src dst p i k) by auto. rewrite H6. reflexivity.
+Qed.
+
+(* corruption of an address (pseudo header) is detected as well *)
+Definition addr_flip (a : cksum_ipaddr) (i : nat) (k : Z) : cksum_ipaddr :=
+  match a with CkV4 o => CkV4 (flip_at o i k) | CkV6 o => CkV6 (flip_at o i k) end.
+
+Lemma addr_flip_ok : forall a i k, addr_ok a -> 0 <= k < 8 ->
+  addr_ok (addr_flip a i k) /\ cksum_is_v4 (addr_flip a i k) = cksum_is_v4 a.
+Proof.
+  intros [o|o] i k [B L] Hk; unfold addr_ok; cbn [addr_flip addr_octets cksum_is_v4] in *;
+    (split; [split; [apply flip_at_bytes; auto | rewrite flip_at_length; exact L] | reflexivity]).
+Qed.
+
+Lemma ph_sum_flip : forall a b i k nh len, addr_ok a -> (i < length (addr_octets a))%nat -> 0 <= k < 8 ->
+  exists D, (0 < D < 65535 \/ 0 < - D < 65535) /\
+    ph_sum (addr_octets (addr_flip a i k)) b nh len = ph_sum (addr_octets a) b nh len + D /\
+    ph_sum b (addr_octets (addr_flip a i k)) nh len = ph_sum b (addr_octets a) nh len + D.
+Proof.
+  intros a b i k nh len [B L] Hi Hk.
+  destruct (besum_flip (addr_octets a) i k B Hi Hk) as [D [E HD]].
+  exists D. split; [exact HD|]. unfold ph_sum.
+  destruct a; cbn [addr_flip addr_octets] in *; rewrite E; lia.
+Qed.
+
+Lemma tcp_addr_flip_detected : forall dbg be src dst p i k (which : bool), bytes p ->
+  addr_ok src -> addr_ok dst -> same_family src dst ->
+  Z.of_nat (length p) <= cksum_max_len -> 0 <= k < 8 ->
+  (i < length (addr_octets (if which then src else dst)))%nat ->
+  cksum_tcp_verify dbg be src dst p = Ok true ->
+  cksum_tcp_verify dbg be (if which then addr_flip src i k else src)
+                          (if which then dst else addr_flip dst i k) p = Ok false.
+Proof.
+  intros dbg be src dst p i k which Bp As Ad Hf Hl Hk Hi V.
+  rewrite tcp_verify_shape in V by auto. inversion V as [V'].
+  assert (HP : 0 <= tcp_P src dst p) by (apply ph_nonneg; auto; unfold cksum_PROTO_TCP; lia).
+  destruct which.
+  - destruct (addr_flip_ok src i k As Hk) as [As' Ef].
+    destruct (ph_sum_flip src (addr_octets dst) i k cksum_PROTO_TCP (Z.of_nat (length p)) As Hi Hk) as [D [HD [E _]]].
+    rewrite tcp_verify_shape by (auto; unfold same_family in *; congruence).
+    f_equal.
+    apply (gen_delta_detected (tcp_P src dst p) p _ p D); auto.
+    + apply ph_nonneg; auto. unfold cksum_PROTO_TCP; lia.
+    + unfold tcp_P. rewrite E. lia.
+  - destruct (addr_flip_ok dst i k Ad Hk) as [Ad' Ef].
+    destruct (ph_sum_flip dst (addr_octets src) i k cksum_PROTO_TCP (Z.of_nat (length p)) Ad Hi Hk) as [D [HD [_ E]]].
+    rewrite tcp_verify_shape by (auto; unfold same_family in *; congruence).
+    f_equal.
+    apply (gen_delta_detected (tcp_P src dst p) p _ p D); auto.
+    + apply ph_nonneg; auto. unfold cksum_PROTO_TCP; lia.
+    + unfold tcp_P. rewrite E. lia.
+Qed.
+
+(* verify, stated against the RFC: the one's-complement sum of pseudo header ++ segment is 0xffff *)
+Lemma tcp_verify_rfc : forall dbg be src dst p, bytes p ->
+  addr_ok src -> addr_ok dst -> same_family src dst ->
+  Z.of_nat (length p) <= cksum_max_len ->
+  cksum_tcp_verify dbg be src dst p =
+    Ok (rfc1071_sum (pseudo_bytes src dst cksum_PROTO_TCP (Z.of_nat (length p)) ++ p) =? 65535).
+Proof.
+  intros dbg be src dst p Bp As Ad Hf Hl. rewrite tcp_verify_shape by auto. f_equal.
+  destruct (pseudo_bytes_ok src dst cksum_PROTO_TCP (Z.of_nat (length p)) As Ad
+              ltac:(unfold cksum_PROTO_TCP; lia)) as [B [E _]].
+  apply gen_verify_rfc; auto. unfold tcp_P. rewrite pseudo_bytes_besum by auto. reflexivity.
+Qed.
+
+Lemma icmpv4_verify_rfc : forall dbg be p, bytes p -> Z.of_nat (length p) <= cksum_max_len ->
+  cksum_icmpv4_verify dbg be p = Ok (rfc1071_sum p =? 65535).
+Proof.
+  intros. unfold cksum_icmpv4_verify. rewrite data_eq_rfc1071 by auto. reflexivity.
+Qed.
+
+(* ------------------------------------------------------------------------------------- *)
+(* non-vacuity: concrete packets (the test vectors of the smoltcp unit tests)             *)
+(* ------------------------------------------------------------------------------------- *)
+
+Definition ex_ipv4 : list Z :=
+  [0x45; 0x00; 0x00; 0x1e; 0x01; 0x02; 0x62; 0x03; 0x1a; 0x01; 0xd5; 0x6e; 0x11; 0x12; 0x13;
+   0x14; 0x21; 0x22; 0x23; 0x24; 0xaa; 0x00; 0x00; 0x00; 0x00; 0x00; 0x00; 0x00; 0x00; 0xff].
+Definition ex_v4_src := CkV4 [192; 168; 1; 1].
+Definition ex_v4_dst := CkV4 [192; 168; 1; 2].
+Definition ex_v6_src := CkV6 [0xfe; 0x80; 0; 0; 0; 0; 0; 0; 0; 0; 0; 0; 0; 0; 0; 1].
+Definition ex_v6_dst := CkV6 [0xfe; 0x80; 0; 0; 0; 0; 0; 0; 0; 0; 0; 0; 0; 0; 0; 2].
+Definition ex_udp : list Z := [0xbf; 0x00; 0x00; 0x35; 0x00; 0x0c; 0x12; 0x4d; 0xaa; 0x00; 0x00; 0xff].
+Definition ex_udp_nock : list Z := [0xbf; 0x00; 0x00; 0x35; 0x00; 0x0c; 0x00; 0x00; 0xaa; 0x00; 0x00; 0xff].
+Definition ex_tcp : list Z :=
+  [0xbf; 0x00; 0x00; 0x50; 0x01; 0x23; 0x45; 0x67; 0x89; 0xab; 0xcd; 0xef; 0x60; 0x35; 0x01;
+   0x23; 0x01; 0xb6; 0x02; 0x01; 0x03; 0x03; 0x0c; 0x01; 0xaa; 0x00; 0x00; 0xff].
+Definition ex_icmpv4 : list Z := [0x08; 0x00; 0x8e; 0xfe; 0x12; 0x34; 0xab; 0xcd; 0xaa; 0x00; 0x00; 0xff].
+Definition ex_icmpv6 : list Z := [0x80; 0x00; 0x19; 0xb3; 0x12; 0x34; 0xab; 0xcd; 0xaa; 0x00; 0x00; 0xff].
+(* a UDP datagram over IPv6 whose computed checksum is 0: payload chosen so that the sum folds
+   to 0xffff; fill must transmit 0xffff, and the same bytes with a zero field are rejected *)
+Definition ex_udp6_zero : list Z := [0x00; 0x35; 0x00; 0x35; 0x00; 0x0a; 0x00; 0x00; 0x02; 0x6c].
+
+Definition forall_be (f : bool -> bool -> bool) : bool :=
+  f true true && f true false && f false true && f false false.
+
+Definition outcome_eqb {A} (eqb : A -> A -> bool) (x y : outcome A) : bool :=
+  match x, y with Ok a, Ok b => eqb a b | Panic, Panic => true | Err a, Err b => a =? b | _, _ => false end.
+
+Definition list_eqb (a b : list Z) : bool :=
+  (length a =? length b)%nat && forallb (fun '(x, y) => x =? y) (combine a b).
+
+Lemma c08_examples :
+  (* every function on both endiannesses and both overflow modes *)
+  forall_be (fun dbg be =>
+    outcome_eqb Z.eqb (cksum_data dbg be ex_icmpv4) (Ok 65535) &&
+    outcome_eqb Z.eqb (cksum_data dbg be [0x12; 0x34; 0x56]) (Ok (0x1234 + 0x5600)) &&
+    outcome_eqb Z.eqb (cksum_data dbg be []) (Ok 0) &&
+    outcome_eqb Z.eqb (cksum_data dbg be [0xff; 0xff; 0x00; 0x01]) (Ok 1) &&
+    outcome_eqb Bool.eqb (cksum_ipv4_verify dbg be ex_ipv4) (Ok true) &&
+    outcome_eqb list_eqb (cksum_ipv4_fill dbg be (w16 ex_ipv4 10 0xeeee)) (Ok ex_ipv4) &&
+    outcome_eqb Bool.eqb (cksum_udp_verify dbg be ex_v4_src ex_v4_dst ex_udp) (Ok true) &&
+    outcome_eqb list_eqb (cksum_udp_fill dbg be ex_v4_src ex_v4_dst ex_udp_nock) (Ok ex_udp) &&
+    outcome_eqb Bool.eqb (cksum_udp_verify dbg be ex_v4_src ex_v4_dst ex_udp_nock) (Ok true) &&
+    outcome_eqb Bool.eqb (cksum_udp_verify dbg be ex_v6_src ex_v6_dst ex_udp_nock) (Ok false) &&
+    outcome_eqb Bool.eqb (cksum_udp_parse_check true dbg be ex_v6_src ex_v6_dst ex_udp_nock) (Ok false) &&
+    outcome_eqb Bool.eqb (cksum_udp_parse_check true dbg be ex_v4_src ex_v4_dst ex_udp_nock) (Ok true) &&
+    outcome_eqb list_eqb (cksum_udp_fill dbg be ex_v6_src ex_v6_dst ex_udp6_zero)
+                         (Ok (w16 ex_udp6_zero 6 0xffff)) &&
+    outcome_eqb Bool.eqb (cksum_udp_verify dbg be ex_v6_src ex_v6_dst (w16 ex_udp6_zero 6 0xffff)) (Ok true) &&
+    outcome_eqb Bool.eqb (cksum_udp_verify dbg be ex_v6_src ex_v6_dst ex_udp6_zero) (Ok false) &&
+    outcome_eqb Bool.eqb (cksum_tcp_verify dbg be ex_v4_src ex_v4_dst ex_tcp) (Ok true) &&
+    outcome_eqb list_eqb (cksum_tcp_fill dbg be ex_v4_src ex_v4_dst (w16 ex_tcp 16 0xeeee)) (Ok ex_tcp) &&
+    outcome_eqb Bool.eqb (cksum_tcp_verify dbg be ex_v4_src ex_v4_dst (flip_at ex_tcp 27 0)) (Ok false) &&
+    outcome_eqb Bool.eqb (cksum_tcp_verify dbg be ex_v4_src ex_v6_dst ex_tcp) Panic &&
+    outcome_eqb Bool.eqb (cksum_icmpv4_verify dbg be ex_icmpv4) (Ok true) &&
+    outcome_eqb list_eqb (cksum_icmpv4_fill dbg be (w16 ex_icmpv4 2 0)) (Ok ex_icmpv4) &&
+    outcome_eqb Bool.eqb (cksum_icmpv6_verify dbg be (addr_octets ex_v6_src) (addr_octets ex_v6_dst) ex_icmpv6) (Ok true) &&
+    outcome_eqb list_eqb (cksum_icmpv6_fill dbg be (addr_octets ex_v6_src) (addr_octets ex_v6_dst) (w16 ex_icmpv6 2 0))
+                         (Ok ex_icmpv6) &&
+    outcome_eqb list_eqb (cksum_icmpv4_fill dbg be [8; 0; 0]) Panic) = true.
+Proof. vm_compute. reflexivity. Qed.
+
+(* the accumulator bound is sharp: 131074 bytes of 0xff reach exactly u32::MAX and are still
+   summed correctly; two more bytes overflow: debug builds panic, release builds wrap and return
+   0xfeff (little endian) / 0xfffe (big endian) instead of the RFC 1071 value 0xffff *)
+Lemma c08_bound_sharp :
+  let ff n := repeat 255 (Z.to_nat n) in
+  cksum_accum false (ff 131074) = cksum_u32_MAX /\
+  cksum_data true false (ff 131074) = Ok 65535 /\
+  cksum_data true false (ff 131076) = Panic /\
+  cksum_data false false (ff 131076) = Ok 65279 /\
+  cksum_data false true (ff 131076) = Ok 65534 /\
+  rfc1071_sum (ff 131076) = 65535.
+Proof. vm_compute. repeat split; reflexivity. Qed.
+
+(* combine is literally the RFC's word-by-word one's-complement addition *)
+Lemma combine_is_fold : forall ws, words16 ws -> Z.of_nat (length ws) <= 65537 ->
+  cksum_combine ws = fold_left oc_add ws 0.
+Proof.
+  intros ws Hw Hl. rewrite combine_eq by auto. rewrite fold_oc_add_norm by (auto; lia).
+  rewrite Z.add_0_l. reflexivity.
+Qed.
